@@ -115,6 +115,19 @@ def run(ctx):
         if f.impl_trait in ("serde::ser::Serialize", "core::clone::Clone", "serde::de::Deserialize", "schemars::JsonSchema", "core::fmt::Debug"):
             continue
         ctx.ob("R2", "reader of rule.message: %s" % r, r in allowed, allowed.get(r, "raw read of the message field outside get_message: variables would not be substituted / transforms not applied"), where=f.loc(), nontrivial=False)
+    # the one reader that is allowed "for an emptiness test only" really only tests: the field is the receiver of is_empty()/len(), never
+    # cloned, formatted or returned (a shortcut that publishes rule.message verbatim skips variable substitution and re-indentation)
+    for f in prog.find_fns(r"^ast_grep_lsp::utils::get_non_empty_message$"):
+        fi = prog.inlined(f)
+        def from_message(op):
+            return op[0] != "k" and any(o.kind == "param" and "message" in field_path(o.proj) for o in deep_roots(prog, fi, op, TRANSPARENT))
+        uses = sorted({c.name for c in fi.calls if c.bb in fi.live_blocks and any(from_message(a) for a in c.args)})
+        bad = [u for u in uses if u not in ("is_empty", "len", "deref", "as_str", "as_ref", "borrow")]
+        ret = from_message(["c", [0, []]])
+        ctx.ob("R2", "get_non_empty_message reads rule.message for an emptiness test only", not bad and not ret,
+               "the field only feeds %s" % uses if not bad and not ret else
+               "rule.message itself flows into %s%s: the language server publishes the raw template for some matches (unbound `$VAR` stays literal, multi-line messages are not re-indented) "
+               "while every CLI front end renders it" % (bad, " and into the returned string" if ret else ""), where=f.loc())
     if gm:
         renderers = [r"^ast_grep::print::json_print::RuleMatchJSON::<.*>::new$", r"^ast_grep::print::cloud_print::print_rule$", r"^<ast_grep::print::colored_print::ColoredProcessor as .*>::print_rule$",
                      r"^ast_grep_lsp::utils::get_non_empty_message$"]
